@@ -34,7 +34,7 @@ def consts(phi, window, maxi, prior, model):
               "MaxClock": 9, "MaxHb": 99, "TrackHb": "TRUE", "PhiN": phi[0], "PhiD": phi[1],
               "Window": window, "MaxInterval": maxi, "Prior": prior, "DeadGrace": 100000,
               "Enable": "{}", "Heartbeats": "{1, 2, 3, 4}" if model else "{}",
-              "MaxArrivals": 5 if model else 0})
+              "MaxArrivals": 5 if model else 0, "KeepPath": "TRUE" if model else "FALSE"})
     return c
 
 
@@ -53,24 +53,33 @@ def tmp(n):
     return os.path.join(vlib.WORK, "tmp", n)
 
 
-def run(prop, tier, seed, replay=None):
-    res = vlib.Result(prop, tier, seed, "model_checking")
-    vlib.build_harness()
-    inv, props = FORMULAS[prop]["inv"], FORMULAS[prop]["props"]
+def family_key(tier, seed):
+    import hashlib
+    h = hashlib.sha256()
+    h.update(vlib.spec_hash(FILES).encode())
+    h.update(vlib.repo_hash().encode())
+    for dp, dn, fn in sorted(os.walk(os.path.join(vlib.HARNESS, "src"))):
+        dn.sort()
+        for f in sorted(fn):
+            with open(os.path.join(dp, f), "rb") as fh:
+                h.update(fh.read())
+    for f in (__file__, G.__file__):
+        with open(f, "rb") as fh:
+            h.update(fh.read())
+    h.update(f"{tier}:{seed}".encode())
+    return h.hexdigest()[:20]
 
-    if replay:
-        with open(replay) as fh:
-            obj = json.load(fh)
-        tpath = tmp("replay_det.ndjson")
-        G.run_harness(["trace", json.dumps(obj["hcfg"])],
-                      stdin_text=json.dumps({"steps": obj["steps"]}) + "\n", out_path=tpath)
-        c = consts(tuple(obj["phi"]), obj["window"], obj["maxi"], obj["prior"], False)
-        for (_, f, at) in observe(G.split_traces(tpath), c, inv, props, "replay"):
-            res.violation(obj, f"{f} fails at event {at}")
-        res.coverage = {"states": 1, "transitions": len(obj["steps"]),
-                        "traces_validated_against_impl": 1, "samples": [obj["steps"][:5]]}
-        return res.finish()
 
+def family_run(tier, seed):
+    """Model runs, edge replays and driver histories shared by C10 and C11 (cached per tree)."""
+    cpath = os.path.join(vlib.WORK, "cache", f"detfamily_{family_key(tier, seed)}.json")
+    if os.path.exists(cpath):
+        with open(cpath) as fh:
+            fam = json.load(fh)
+        fam["cached"] = True
+        fam["divergent"] = [(d[0], (tuple(d[1][0]), d[1][1], d[1][2], d[1][3]), d[2], d[3]) for d in fam["divergent"]]
+        return fam
+    prop = "fam"
     states = transitions = conform = 0
     models = {}
     divergent = []   # (lines, params, steps, note)
@@ -120,7 +129,7 @@ def run(prop, tier, seed, replay=None):
 
     # long random histories
     rnd = random.Random(seed)
-    nsets = 6 if tier == "quick" else 40
+    nsets = 6 if tier == "quick" else 16
     drv = {}
     for si in range(nsets):
         phi = rnd.choice([(1, 2), (1, 1), (3, 2), (2, 1), (37, 10), (8, 1), (16, 1)])
@@ -133,7 +142,8 @@ def run(prop, tier, seed, replay=None):
             w = rnd.choice([1, 2, 5, 20, 100, 1000])
             mi = rnd.choice([1, 3, 10, 100, 1000])
             pr = rnd.choice([1, 2, 5, 50, 500])
-            narr, ntr = rnd.choice([200, 600, 2000]), 20
+            narr = rnd.choice([200, 600, 2000])
+            ntr = 8 if narr == 2000 else 20
         h = hcfg(phi, w, mi, pr)
         tpath = tmp(f"detdrv_{prop}_{si}.ndjson")
         G.run_harness(["detector", json.dumps(dict(h, seed=seed * 100 + si, traces=ntr, arrivals=narr))],
@@ -173,6 +183,36 @@ def run(prop, tier, seed, replay=None):
         if len(samples) < 3:
             samples.append([json.loads(x) for x in traces[0][1:4]])
         os.remove(tpath)
+
+    fam = {"states": states, "transitions": transitions, "conform": conform, "models": models, "drv": drv,
+           "divergent": divergent, "samples": samples, "cached": False}
+    with open(cpath + ".part", "w") as fh:
+        json.dump(fam, fh)
+    os.replace(cpath + ".part", cpath)
+    return fam
+
+
+def run(prop, tier, seed, replay=None):
+    res = vlib.Result(prop, tier, seed, "model_checking")
+    vlib.build_harness()
+    inv, props = FORMULAS[prop]["inv"], FORMULAS[prop]["props"]
+
+    if replay:
+        with open(replay) as fh:
+            obj = json.load(fh)
+        tpath = tmp("replay_det.ndjson")
+        G.run_harness(["trace", json.dumps(obj["hcfg"])],
+                      stdin_text=json.dumps({"steps": obj["steps"]}) + "\n", out_path=tpath)
+        c = consts(tuple(obj["phi"]), obj["window"], obj["maxi"], obj["prior"], False)
+        for (_, f, at) in observe(G.split_traces(tpath), c, inv, props, "replay"):
+            res.violation(obj, f"{f} fails at event {at}")
+        res.coverage = {"states": 1, "transitions": len(obj["steps"]),
+                        "traces_validated_against_impl": 1, "samples": [obj["steps"][:5]]}
+        return res.finish()
+
+    fam = family_run(tier, seed)
+    states, transitions, conform = fam["states"], fam["transitions"], fam["conform"]
+    models, drv, divergent, samples = fam["models"], fam["drv"], fam["divergent"], fam["samples"]
 
     # judge every non-conforming history, grouped by detector parameters (one TLC run per group;
     # a reported violation is then pinned to its history by single-history runs)
